@@ -146,7 +146,17 @@ def analyse(unit, g, vr):
         sec = [s for s in spans if not s.get('is_primary')]
         rendered = d.get('rendered', d.get('message', ''))
         if cls == 'rlimit':
-            undecided.append('rlimit/timeout: ' + d.get('message', ''))
+            # attribute the time-out to the function it happened in, so that only its properties are undecided
+            fnlab = None
+            for sp in prim + sec:
+                so = origin(sp['line_start'])
+                if so.get('k') == 'src':
+                    fnlab = containing_fn(idx, so['file'], so['line'])
+                elif so.get('k') == 'ins':
+                    fnlab = so.get('contract')
+                if fnlab:
+                    break
+            undecided.append({'msg': 'rlimit/timeout in %s: %s' % (fnlab, d.get('message', '')), 'fn': fnlab})
             continue
         if cls == 'other-error':
             undecided.append('verus/rustc error (not a verification failure): ' + (rendered or '')[:600])
@@ -424,8 +434,13 @@ def run_check(pid, tier, seed, scratch, t0):
             pr = route(f, contracts)
             if pid in pr:
                 all_fail.append(dict(f, unit=uname))
-        # undecided diagnostics are fatal for every property served by this unit
-        undecided += r['undecided']
+        # undecided diagnostics: those attributed to a function only concern that function's properties
+        for u in r['undecided']:
+            if isinstance(u, dict):
+                if u['fn'] is None or u['fn'] in relevant:
+                    undecided.append(u['msg'])
+            else:
+                undecided.append(u)
         if g.lost_anchors:
             lost_fns = set(x.split(' ')[0] for x in g.lost_anchors)
             hit = [f for f in all_fail if f['fn'] in lost_fns]
